@@ -1,8 +1,14 @@
 (* C05_Wire.v — wire glue for C05 (no proofs; exercised by the correspondence).
 
    input    = cfg :: t :: concat [op; arg]
-              cfg 0 = queue.New[int]()         (slice-backed; t ignored)
-              cfg 1 = queue.NewLinked[int](t)  (linked, mandatory first element t)
+              cfg = impl + 2*inst
+              impl 0 = queue.New[T]()          (slice-backed; t ignored)
+              impl 1 = queue.NewLinked[T](t)   (linked, mandatory first element t)
+              inst 0..2 = the element type T the harness instantiates (int, string,
+                          struct{K int; S string}; elements go through an injective
+                          codec int <-> T, harness/c05_instances.go).  The model is
+                          the same for every inst: the code is generic in T and uses
+                          only == on elements, so cfg 0|2|4 and 1|3|5 are one case each.
               op  1 Enqueue arg | 2 Dequeue | 3 Peek | 4 Search arg | 5 Size | 6 Clear
    observed = concat (result of every op) ++ end-of-case observables, where the
               end of a case is: Size (= n), min(n,4096) x Dequeue, Size, Dequeue,
@@ -55,8 +61,8 @@ Definition c05_run (w : list Z) : list Z :=
       match dec_ops (chunks 2 w') with
       | Some ops =>
           match cfg with
-          | 0 => enc_outs (observe sq_step sq_new ops)
-          | 1 => enc_outs (observe lq_step (lq_new t) ops)
+          | 0 | 2 | 4 => enc_outs (observe sq_step sq_new ops)
+          | 1 | 3 | 5 => enc_outs (observe lq_step (lq_new t) ops)
           | _ => wire_error
           end
       | None => wire_error
@@ -72,8 +78,8 @@ Definition c05_spec (w : list Z) : list Z :=
       match dec_ops (chunks 2 w') with
       | Some ops =>
           match cfg with
-          | 0 => enc_outs (observe fifo_step [] ops)
-          | 1 => enc_outs (map forget_err (observe fifo_step [t] ops))
+          | 0 | 2 | 4 => enc_outs (observe fifo_step [] ops)
+          | 1 | 3 | 5 => enc_outs (map forget_err (observe fifo_step [t] ops))
           | _ => wire_error
           end
       | None => wire_error
